@@ -658,7 +658,7 @@ def symbol_inventory(ctx, viol, st, want_writable=True, want_undef=True):
             if len(p) >= 5 and re.match(r'^[0-9a-f]{8,}$', p[0]):
                 sec, name = p[-3], p[-1]
                 flags = line[17:24] if len(line) > 24 else ''
-                if (sec.startswith('.data') and not sec.startswith('.data.rel.ro')) or sec.startswith('.bss') or sec.startswith('.tdata') or sec.startswith('.tbss') or sec == '*COM*':
+                if (sec.startswith('.data') and not sec.startswith('.data.rel.ro')) or sec.startswith('.bss') or sec == '*COM*':   # thread-local sections are per thread, not shared
                     if name not in (sec,) and not name.startswith('.'):
                         writable.add(name)
         nm = core.run(['nm', '-u'] + objs).stdout
@@ -672,8 +672,8 @@ def symbol_inventory(ctx, viol, st, want_writable=True, want_undef=True):
     st['hist']['undefined non-polyseed symbols'] = sorted(undef)
     if want_writable:
         for w in sorted(writable - WRITABLE_ALLOWED):
-            viol.append(Violation('oracle', 'writable-symbol:' + w, 'the library objects contain writable static storage "%s" besides the injected-dependency table, the feature mask and the GF table: shared mutable state not covered by the model' % w,
-                                  script=['objdump -t <objects built from the tree>', w], suite='syms', found_input=True))
+            viol.append(Violation('correspondence', 'writable-symbol:' + w, 'the library objects contain writable static storage "%s" besides the injected-dependency table, the feature mask, the GF table and the registry: shared state that the model (and thread_serial) does not cover' % w,
+                                  script=['objdump -t <objects built from the tree>', w], suite='syms'))
     if want_undef:
         for u in sorted(undef):
             c = undef_class(u)
